@@ -422,7 +422,7 @@ Proof.
   { constructor; unfold c'; red_cfg; auto; lia. }
   exists chain, (S hi), ti. split; [exact Sh'|]. split.
   - unfold c'. red_cfg. eapply threads_ok_update; [exact Th|exact Hl| |].
-    + unfold thr_ok, l'. red_loc. exists v. exact Hnv.
+    + unfold thr_ok, l'. red_loc. exists y, v. rewrite Hq, Hy. auto.
     + intros t2 l2 Hne H2 Hok2 [Hc1 Hc2]. split.
       * eapply thr_ok_mono; try exact Hok2; try lia; auto.
         intros z Ho. eapply owned_fresh; eauto.
@@ -599,7 +599,9 @@ Proof.
     + (* DeqHeadNext *)
       injection Hstep as <- <-. split; [|discriminate]. goto_case Sh Th Hh Hl Hpc. exact Hok.
     + (* DeqRetVal *)
-      destruct Hok as (v & Hv). rewrite Hv in Hstep.
+      destruct Hok as (x & v & Hp & Hin & Hv0).
+      assert (Hv : node_val (q_vals c) (q_headNext l) = Some v) by (rewrite Hp; exact Hv0).
+      rewrite Hv in Hstep.
       injection Hstep as <- <-. split; [|discriminate].
       eapply (inv_ret c chain hi ti t l OpDeq (RDeq (Some v))); eauto.
       unfold exp_phase. rewrite Hpc, Hv. reflexivity.
